@@ -1,4 +1,6 @@
 import QModel.AlgebraIO
+import QModel.MachineIO
+import QModel.AtomsIO
 /-! Model driver: one operation per line on stdin, one canonical result line on stdout.
     Run with `lake env lean --run Driver.lean`. -/
 
@@ -7,6 +9,8 @@ def dispatch (line : String) : String :=
   | [] => "bad-op"
   | ws@(cmd :: _) =>
     if cmd = "alg" || cmd = "oalg" || cmd = "callplain" then Alg.handle ws
+    else if cmd = "mm" then MM.handle ws
+    else if cmd.startsWith "ri." || cmd.startsWith "at." || cmd = "mol" then RI.handle ws
     else "bad-op"
 
 partial def loop (h : IO.FS.Stream) (out : IO.FS.Stream) : IO Unit := do
